@@ -120,7 +120,7 @@ def run(ctx):
         # shifted-boundary pairs over strings of length <= 3 (2940 sealed triples; printed, so one worker) and
         # a four-edit attacker, exhaustive only
         jobs.insert(1, (ctx, "B3-edges", "C08_MCB", _cfg("B", {"WalkLen": 3}, edges=True), None))
-        jobs.append((ctx, "A-deep4", "C08_MC", _cfg("A", {"MaxEdits": 4}, inv="TypeOKA BindingA HonestA RoundTripA"), None))
+        jobs.append((ctx, "A-deep4", "C08_MC", _cfg("A", {"MaxEdits": 4}, inv="TypeOKA BindingA HonestA RoundTripA"), None, 2))
     # The printing runs are on the critical path (graph -> behaviours -> replay): they go first and the replay
     # starts as soon as they are done, while the deep runs continue in the pool.  At most four single-worker
     # TLC runs at a time.  The pool forks its workers at the first submit, BEFORE any thread runs a
